@@ -55,8 +55,8 @@ ReqExpect(cs, r, cfg) ==
   IF r.frame THEN [kind |-> "frameany"]      \* a raw frame (non-array value, odd array): any ONE frame, or the connection is closed
   ELSE IF r.name \notin (Registered \cup cfg.custom) THEN ErrorE                 \* unknown command: error, no call
   ELSE IF ~cs.auth /\ r.name # "AUTH" THEN ErrorE                                  \* password gate (C08)
-  ELSE IF r.name \in cfg.custom THEN
-    [kind |-> "calls", e |-> Well(<<Call("MyCmd", <<L(r.args)>>, NoOpt)>>, "seq", "result")]
+  ELSE IF r.name \in cfg.custom THEN        \* the executor the application registered LAST under that name (also over a built-in command)
+    [kind |-> "calls", e |-> Well(<<Call(cfg.tags[r.name], <<L(r.args)>>, NoOpt)>>, "seq", "result")]
   ELSE CASE
     r.name = "PING" -> IF r.args = <<>> THEN Exact(PONGV)
                        ELSE IF Len(r.args) = 1 /\ ~IsNull(r.args[1]) THEN Exact(Bulk(r.args[1].b))
